@@ -11,6 +11,7 @@ import (
 	goat "github.com/avos-io/goat"
 	"google.golang.org/grpc"
 	"google.golang.org/grpc/metadata"
+	"google.golang.org/protobuf/types/known/wrapperspb"
 )
 
 // c01ProxyShared: the proxy topology WITHOUT a demultiplexer — several clients, one proxy, and the
@@ -106,4 +107,49 @@ func c01ProxyShared(serialise bool, l int) *c01Net {
 		}
 	}
 	return n
+}
+
+// c01ReusedReply: grpc.ClientConnInterface.Invoke must OVERWRITE the reply message it is given. One caller
+// reuses a single reply message for a series of calls whose replies shrink down to the empty message
+// (zero-length encoding): after each call the message holds exactly the handler's reply to THAT request.
+func c01ReusedReply(r *Run) {
+	if !r.Want("reuse") {
+		return
+	}
+	for _, serialise := range []bool{true, false} {
+		rig := NewRig(RigOpt{Serialise: serialise})
+		// the handler drops the first byte of the request
+		rig.Impl.SetUnary(func(ctx context.Context, req []byte) ([]byte, error) {
+			if len(req) == 0 {
+				return nil, nil
+			}
+			return req[1:], nil
+		})
+		out := new(wrapperspb.BytesValue)
+		for _, req := range []string{"xyz", "ab", "q", "", "mn", "k", "k", ""} {
+			in := map[string]any{"request": req, "serialise": serialise, "reply_message": "reused across the calls of this series"}
+			r.Progress("reuse", in)
+			var err error
+			if !within(hangTimeout, func() {
+				err = rig.CC.Invoke(context.Background(), mUnary, &wrapperspb.BytesValue{Value: []byte(req)}, out)
+			}) {
+				r.Violate("reuse.none", "ops", "a unary call did not return", in, goroutineDump(), nil)
+				rig.Close()
+				return
+			}
+			want := ""
+			if len(req) > 0 {
+				want = req[1:]
+			}
+			if err != nil || string(out.Value) != want {
+				r.Violate("reuse.reply", "ops", "the reply message does not hold the handler's reply to this request (the caller reuses one message; Invoke must overwrite it)", in,
+					fmt.Sprintf("reply=%q err=%v", out.Value, err), fmt.Sprintf("%q", want))
+				rig.Close()
+				return
+			}
+			r.Eval(fmt.Sprintf("reuse/%v/%s", serialise, req), true)
+			r.Count("reuse.calls")
+		}
+		rig.Close()
+	}
 }
